@@ -167,7 +167,9 @@ def result_repr(res):
     import sympy
     from sympy.physics.units import Quantity as SymQuantity
     if isinstance(res, SymQuantity):
-        return ["Q", str(sympy.N(res.scale_factor, 10)), str(res.dimension)]
+        from vf import units_ref
+        v = units_ref.observed_vector(res.dimension)  # exponent vector: equivalent spellings of a dimension must not differ
+        return ["Q", str(sympy.N(res.scale_factor, 10)), units_ref.vfmt(v) if isinstance(v, tuple) and v and not isinstance(v[0], str) else str(v)]
     if hasattr(res, "components"):
         return ["V"] + [result_repr(c) for c in res.components]
     if isinstance(res, (list, tuple)):
